@@ -214,11 +214,18 @@ def run_lines(ctx, symbols, unix, case, split_rng=None):
             ok_index = idx
         mech_at_read = offered[-1] if offered else None
         if name == 'DATA_cookie' and mech_at_read == b'DBUS_COOKIE_SHA1':
+            answered = False
             for l in new:
                 if l.startswith(b'DATA'):
+                    answered = True
                     ctx.count('cookie_answers')
                     if not check_cookie_answer(l):
                         violation('cookie-answer-wrong', 'client answered the cookie challenge with a wrong response %r' % l)
+            if not answered and not s.closed and not any(k_ == 'DATA_cookie' for k_ in symbols[:idx]):
+                # the cookie is in the keyring and this is the first challenge of this mechanism: a client that gives up
+                # here cannot complete against a server that accepts only this mechanism
+                violation('cookie-challenge-not-answered', 'client answered the first DBUS_COOKIE_SHA1 challenge with %r '
+                          'although the cookie is in its keyring' % (new,))
         # track what the client did in reaction
         for l in new:
             m = mech_of(l)
@@ -310,8 +317,16 @@ class RefServer:
                 return None
             self.closed = True
             return None
+        if self.state == 'doomed':
+            # the challenge of a mechanism this server was never going to accept has been answered: reject now
+            return self.reject()
         if self.state == 'auth':
             if cmd == b'AUTH':
+                if len(parts) >= 2 and parts[1] == b'EXTERNAL' and parts[1] not in self.accept and \
+                        self.external_style == 'data':
+                    # like a daemon without peer credentials: challenge first, reject afterwards
+                    self.state = 'doomed'
+                    return b'DATA'
                 if len(parts) < 2 or parts[1] not in self.accept:
                     return self.reject()
                 self.mech = parts[1]
